@@ -18,10 +18,10 @@ list of side conditions below; each is necessary (see the examples at the end):
 * `noCap` / `noFold` — the property's own provisos (the reconstruction has no capacity and does not fold);
 * `noEqf` — no equality policy anywhere (a policy replaces the comparison by an arbitrary closure);
 * `eqReady` — what C04's domain admits but Go's equality can never accept, even between a value and itself:
-  a NaN leaf (`NaN != NaN`), a `.cnd` node whose configuration is not an initialised Condition's (the model's
-  encoding of "not initialised": `IsEqual` answers "Not initialised"), and — since a Condition given as a
-  Condition's expression is passed through as the very same value, *whatever it holds* — that such a nested
-  Condition be itself within C05's domain (`inDomain`), so that it is equal to itself.
+  a NaN leaf (`NaN != NaN`) and a `.cnd` node whose configuration is not an initialised Condition's (the model's
+  encoding of "not initialised": `IsEqual` answers "Not initialised") — at every depth, Conditions held as a
+  Condition's expression included: since repair F43 such a Condition is rebuilt like every other node (the
+  reconstruction is an independent tree), so nothing about it has to be assumed beyond what is asked of any node.
 -/
 
 set_option linter.unusedSimpArgs false
@@ -59,7 +59,7 @@ def Leaf.notNaN : Leaf → Bool
 
 mutual
 /-- what C04's domain admits but equality cannot accept (see the file header): no NaN leaf, every Condition
-initialised, a Condition in expression position within C05's domain -/
+initialised (a Condition in expression position like any other) -/
 def eqReady : Val → Bool
   | .leaf l => l.notNaN
   | .stk _ _ xs => eqReadyL xs
@@ -73,7 +73,7 @@ def eqReadyL : List Val → Bool
 def eqReadyExpr : Val → Bool
   | .leaf l => l.notNaN
   | .stk _ _ xs => eqReadyL xs
-  | .cnd f c kw op ex => inDomain (.cnd f c kw op ex)
+  | .cnd _ c _ _ ex => c.kind == Gen.kind_cond && eqReadyExpr ex
   | _ => true
 end
 
@@ -148,9 +148,12 @@ theorem inDomain_of_dom (x : Val) :
     rw [noEqf, Val.allCfg, Bool.and_eq_true] at he
     rw [eqReadyExpr] at hr
     rw [inDomain, he.1, realKind_contains _ hd.1, ih hd.2 he.2 hr]; rfl
-  | case9 f c kw op ex =>
-    rename_i hu1 hu2 hr
-    rw [eqReadyExpr] at hr; exact hr
+  | case9 f c kw op ex ih =>
+    rename_i hd he hr
+    rw [domExpr, Bool.and_eq_true] at hd
+    rw [noEqf, Val.allCfg, Bool.and_eq_true] at he
+    rw [eqReadyExpr, Bool.and_eq_true] at hr
+    rw [inDomain, he.1, hr.1, ih hd.2 he.2 hr.2]; rfl
   | case10 v h1 h2 h3 h4 =>
     rename_i hd hu1 hu2
     cases v with
@@ -207,8 +210,8 @@ theorem skel_aux (x : Val) :
     have : skelElem v = v := by
       cases v <;> first | rfl | exact (hs _ _ _ rfl).elim | exact (hc' _ _ _ _ _ rfl).elim
     rw [this]; exact ⟨hi, sameDesc_refl v hi⟩
-  | case6 => intros; exact ⟨rfl, rfl⟩
-  | case7 x rest ihx ihr =>
+  | case7 => intros; exact ⟨rfl, rfl⟩
+  | case8 x rest ihx ihr =>
     rename_i hd hc hf hi
     rw [domElems, Bool.and_eq_true] at hd
     rw [Val.allCfgL, Bool.and_eq_true] at hc hf
@@ -227,10 +230,21 @@ theorem skel_aux (x : Val) :
     constructor
     · rw [inDomain, realKind_contains _ hd.1, h1]; rfl
     · rw [sameDesc, sameHead_skel c hd.1 hc.1 hf.1, h2]; rfl
-  | case5 v hs =>
+  | case5 f c kw op ex ih =>
+    rename_i hd hc hf hi
+    rw [domExpr, Bool.and_eq_true] at hd
+    rw [noCap, Val.allCfg, Bool.and_eq_true] at hc
+    rw [noFold, Val.allCfg, Bool.and_eq_true] at hf
+    rw [inDomain, Bool.and_eq_true, Bool.and_eq_true] at hi
+    obtain ⟨h1, h2⟩ := ih hd.2 hc.2 hf.2 hi.2
+    rw [C04_structure_expr_cond f c kw op ex hd.1 hd.2]
+    constructor
+    · rw [inDomain, h1]; rfl
+    · rw [sameDesc, h2, sameOp_refl]; simp
+  | case6 v hs hc' =>
     rename_i hu1 hu2 hu3 hi
     have : skelExpr v = v := by
-      cases v <;> first | rfl | exact (hs _ _ _ rfl).elim
+      cases v <;> first | rfl | exact (hs _ _ _ rfl).elim | exact (hc' _ _ _ _ _ rfl).elim
     rw [this]; exact ⟨hi, sameDesc_refl v hi⟩
 
 theorem skel_inDomain_sameDesc (s : Stk) (hd : s.Dom) (hcap : noCap s.val = true) (hfold : noFold s.val = true)
@@ -285,7 +299,8 @@ example : Val.IsEqual (fun _ _ _ => some .badInput) false exTree0.val exTree0.sk
     Val.IsEqual (fun _ _ _ => some .badInput) false exTree0.skel exTree0.val = .ok none :=
   C04_isEqual _ _ (by decide) (by decide) (by decide) (by decide) (by decide)
 
-/-- a Condition passed through as a Condition's expression (the very same value on both sides) -/
+/-- a Condition (alias form) held as a Condition's expression: rebuilt as an independent native Condition (repair F43),
+equal to the original all the same -/
 def exNested : Stk :=
   ⟨{ kind := Gen.kind_list },
    [ .cnd .native { kind := Gen.kind_cond } "kw".toList (.cmp 1)
@@ -293,6 +308,28 @@ def exNested : Stk :=
 
 example : Val.IsEqual (fun _ _ _ => none) false exNested.val exNested.skel = .ok none :=
   (C04_isEqual _ _ (by decide) (by decide) (by decide) (by decide) (by decide)).1
+
+/-- the reconstruction does not share the inner Condition with the original: it is a different value (native form,
+default configuration) -/
+example : exNested.skel ≠ exNested.val ∧
+    exNested.skel = .stk .native { kind := Gen.kind_list }
+      [ .cnd .native { kind := Gen.kind_cond } "kw".toList (.cmp 1)
+          (.cnd .native { kind := Gen.kind_cond } "in".toList (.cmp 2) (.leaf (.int 1))) ] := by
+  refine ⟨?_, rfl⟩
+  intro h
+  have := congrArg (fun v => match v with
+    | .stk _ _ [.cnd _ _ _ _ (.cnd f _ _ _ _)] => f
+    | _ => Form.native) h
+  exact absurd this (by decide)
+
+/-- Condition in Condition in Condition with a Stack below (`exCic` of C04: alias, pointer and alias-with-String forms
+on the way down): inside the domain of the IsEqual theorem, in both directions -/
+example : exCic.Dom ∧ noCap exCic.val = true ∧ noFold exCic.val = true ∧ noEqf exCic.val = true ∧
+    eqReady exCic.val = true := by decide
+
+example : Val.IsEqual (fun _ _ _ => none) false exCic.val exCic.skel = .ok none ∧
+    Val.IsEqual (fun _ _ _ => none) false exCic.skel exCic.val = .ok none :=
+  C04_isEqual _ _ (by decide) (by decide) (by decide) (by decide) (by decide)
 
 /-- with the capacity, the original `exTree` is in C04's domain but not equal to its reconstruction … -/
 example : exTree.Dom ∧ Val.IsEqual (fun _ _ _ => none) false exTree.val exTree.skel = .ok (some .capLen) :=
